@@ -55,11 +55,12 @@ Definition indexed_mode (m : amode) : bool :=
   | _ => false
   end.
 
-(** .if: KeyError / SymbolNotDefined while evaluating the condition count as false. *)
+(** .if: SymbolNotDefined while evaluating the condition counts as false (every other failure,
+    an operator without precedence entry — KeyError — included, reaches the caller). *)
 Definition if_condition (w : world) (r : rstate) (c : expr) : res bool :=
   match eval_raw w r c with
   | Ok v => Ok (negb (v =? 0))
-  | Err EKey | Err ESymbol => Ok false
+  | Err ESymbol => Ok false
   | Err k => Err k
   | OutOfFuel => OutOfFuel
   end.
